@@ -37,9 +37,10 @@ def build_world():
     from stubs import builtins_
     builtins_.install(w)
     builtins_.install_queue(w)
-    from stubs import shapes, cfdp
+    from stubs import shapes, cfdp, oslib
     shapes.install(w)
     cfdp.install(w)
+    oslib.install(w)
     WORLD = w
     import contracts
     contracts.install(w)
